@@ -162,6 +162,20 @@ CHECKS = {
             'association instances are left to C13',
             'deterministic simulation: seeded multi-client histories with '
             'aliasing fault injection against an executable reference model'),
+    'C13': ('store', 'exploration',
+            'cross-invariants inside the store machine: histories create / '
+            'modify / delete association instances and their end points '
+            '(binary/ternary, subclasses, self associations, cross-namespace, '
+            'dangling and NULL ends); after every mutating step sampled '
+            '(source, Role, ResultRole, AssocClass, ResultClass) queries are '
+            'checked: Names == paths of full results (instance, class, Open, '
+            'Iter), agreement with the association instances of the model, '
+            'monotonicity, symmetry, case-insensitivity',
+            'objects other than the source are judged; dangling ends may or '
+            'may not be reported; association instances are created in the '
+            'namespace of one of their ends',
+            'deterministic simulation: seeded histories with cross-invariant '
+            'oracles against an executable reference model'),
 }
 
 ENGINES = [
